@@ -36,7 +36,8 @@ RULE = ("stream 1: rotate_xyz on 3xN dyadic objects (N=0..6) with special and ra
         "1..3 template types per molecule with 1..7 atoms (single atom, collinear, planar, chiral), template "
         "key order shuffled against atom order, 0..n bonded neighbours over trees and rings of residues with "
         "1..2 atom-level bonds per residue edge, neighbours built before / after / never (backmap=False), "
-        "pairs of residue nodes sharing one resid (different residue names, with equal or foreign atom names), "
+        "pairs of residue nodes sharing one resid (different residue names, equal or foreign atom names, bonded "
+        "neighbours included), "
         "fudge_coords in {0.4, 1, 0.25, 0.7, 2, 1.5}; stream 3 (thorough and a few quick): templates from the real "
         "GenerateTemplates (with virtual sites) fed to Backmap.  A case is non-trivial when a backmapped "
         "residue has >= 2 atoms; distinct = (stream, generator seed).")
@@ -47,7 +48,8 @@ EPS_PLANAR = "1/1000000000"
 FUDGES = [0.4, 1.0, 0.25, 0.7, 2.0, 1.5]
 
 
-FINDING_SHAPES = ("shared-resid-neighbour-crashes",)
+FINDING_SHAPES = ()
+# fixed in /repo, therefore always generated: shared-resid-neighbour-crashes (dea35af)
 _OVERRIDE = None
 
 
@@ -144,17 +146,14 @@ def gen_molecule_spec(rng, thorough):
             bonds.append([a, rng.randrange(len(residues[a]["atom_names"])),
                           b, rng.randrange(len(residues[b]["atom_names"]))])
     # two residue nodes may carry the same resid (the residue graph is keyed on (resid, resname): several
-    # chains in one moleculetype, cofactors, restarted numbering).  Such a pair is kept free of bonded
-    # neighbours here, because orient_template tracks built neighbours by resid.
+    # chains in one moleculetype, cofactors, restarted numbering), bonded neighbours included.
     if ntypes >= 2 and nres >= 2 and rng.random() < 0.3:
         pairs = [(a, b) for a in range(nres) for b in range(a + 1, nres) if residues[a]["type"] != residues[b]["type"]]
         if pairs:
             a, b = rng.choice(pairs)
             residues[b]["resid"] = residues[a]["resid"]
-            if not enabled("shared-resid-neighbour-crashes"):
-                # orient_template tells the residue's own atom from the neighbour's by resid and tracks built
-                # neighbours by resid: with bonded neighbours it raises (documented finding, gated)
-                bonds = [bd for bd in bonds if bd[0] not in (a, b) and bd[2] not in (a, b)]
+            # (before fix dea35af orient_template told atoms and built neighbours apart by resid and raised as
+            # soon as such a residue had a bonded neighbour: shape shared-resid-neighbour-crashes)
             if rng.random() < 0.6:
                 # same atom names in both (think BB/SC1): each one's names are keys of the other's template
                 ta, tb = types[residues[a]["type"]], types[residues[b]["type"]]
@@ -291,7 +290,7 @@ def backmap_case(ctx, stream, replay, meta, fudge, via, np_seed):
         residues = []
         for r in res_info:
             ang = angles.get(r["node"]) or (0.0, 0.0, 0.0)
-            residues.append(dict(backmap=r["backmap"], template=r["template"], pos=v3(r["pos"]), resid=r["resid"],
+            residues.append(dict(backmap=r["backmap"], template=r["template"], pos=v3(r["pos"]), node=int(r["node"]),
                                  atoms=r["atoms"], ang=angle_req(*ang)))
         reqs.append(dict(op="place", f=rat_str(fudge),
                          templates=[[k, [[n, v3(vec)] for n, vec in t.items()]] for k, t in meta.templates.items()],
@@ -327,7 +326,8 @@ def backmap_case(ctx, stream, replay, meta, fudge, via, np_seed):
                         agree = False
                         detail = "atom %d: impl %s model %s" % (key, list(map(float, mol.nodes[key]["position"])),
                                                                [float(common.rat_parse(x)) for x in model[key]])
-                built_impl = [int(meta.nodes[n]["resid"]) for n in nodes if meta.nodes[n]["backmap"]]
+                # built_nodes as the real code kept it: what the last orient_template call was handed, plus that node
+                built_impl = ([int(x) for x in per_node[-1][2]] + [int(per_node[-1][0])]) if per_node else []
                 ctx.correspond("place_init_coords", dict(close=True, built=built_impl),
                                dict(close=agree, built=ans["built"], **({"detail": detail} if detail else {})), replay)
         else:
@@ -369,9 +369,9 @@ def backmap_case(ctx, stream, replay, meta, fudge, via, np_seed):
         nres = len(res_info)
         built_seen = {node: built for node, _, built in per_node}
         with_built = sum(1 for r in res_info if r["backmap"] and any(
-            meta.nodes[nb]["resid"] in built_seen.get(r["node"], []) for nb in meta.neighbors(r["node"])))
+            nb in built_seen.get(r["node"], []) for nb in meta.neighbors(r["node"])))
         with_unbuilt = sum(1 for r in res_info if r["backmap"] and any(
-            meta.nodes[nb]["resid"] not in built_seen.get(r["node"], []) for nb in meta.neighbors(r["node"])))
+            nb not in built_seen.get(r["node"], []) for nb in meta.neighbors(r["node"])))
         ctx.tally(residues_with_built_neighbour=with_built > 0, residues_with_unbuilt_neighbour=with_unbuilt > 0)
         maxdeg = max([meta.degree(n) for n in nodes] + [0])
         kmax = max(len(r["atoms"]) for r in res_info)
